@@ -1,10 +1,11 @@
 """C13 — An exception at any point leaves the render state consistent"""
-from vrf.propkit import run_pyvc, contracts_for, BASE_TRUST, BASE_ASSUME
+from vrf.propkit import run_pyvc, run_schema, contracts_for, BASE_TRUST, BASE_ASSUME
+from vrf.schema.programs import family
 
 LEVEL = "proof"
 META = {
     "level": "proof",
-    "technique": "contract-based deductive verification: sidecar pre/postconditions, frames and loop invariants on the real functions, VCs generated from their AST, discharged by z3/cvc5",
+    "technique": "contract-based deductive verification: sidecar pre/postconditions, frames and loop invariants on the real runtime functions AND on every function the real compiler generates for a family of schematic templates (holes = induction hypothesis); VCs from the AST, discharged by z3/cvc5",
     "level_text": 'Exceptional postconditions of capture, supports_caller, _include_file, _exec_template are discharged for every raise point of the callee (induction hypothesis R3).',
     "level_note": 'Trusted: the pyvc encoding of Python semantics (DESIGN 3.1), z3/cvc5, assumed contracts listed in the evidence, the induction hypothesis for opaque render callables (R3). Native small-scope runs of the same contracts are bounded stand-ins, never counted as proved.',
 }
@@ -14,3 +15,4 @@ def run(rep, tier):
     rep.trust(*BASE_TRUST)
     rep.assume(*BASE_ASSUME)
     run_pyvc(rep, contracts_for("C13"), native_limit=150 if tier == "quick" else 600)
+    run_schema(rep, family(tier), labels="exceptional")
